@@ -5,6 +5,19 @@ import sys
 import time
 
 sys.path.insert(0, os.path.dirname(os.path.abspath(__file__)))
+import faulthandler
+import signal
+faulthandler.register(signal.SIGUSR1)
+
+
+def _stats(*a):
+    import exec as ex
+    e = ex.LAST_ENGINE
+    if e is not None:
+        print('STATS', e.stats, 'queries', e.nqueries, 'hits', e.model_hits, 'unknown', e.unknown_checks, 'solver_s', round(e.solver_time, 1), flush=True)
+
+
+signal.signal(signal.SIGUSR2, _stats)
 import conc
 import props
 import runner
